@@ -187,6 +187,13 @@ def unmodelled_in(run, chk, rule, construct):
         seen_.add((e.loc, e.what))
         chk.ob(rule, construct + "[well-typed]", "no operation on the path raises for every input (wrong operand kind, index past a tuple, float where an integer is required)",
                False, derived=e.what, loc=e.loc, stmt=e.stmt, detail="the call cannot return: it raises")
+    # two operands whose lengths are the same named length with different constant offsets (n-1 against n-2), neither of them 1: the
+    # element-wise operation cannot broadcast -- ValueError for every record (but the two or three shortest)
+    sm = [e for e in run.I.events if e.kind == "shape-mismatch" and e.dims and all(d is not None for d in e.dims) and
+          (e.dims[0] - e.dims[1]).is_const() and (e.dims[0] - e.dims[1]).c != 0]
+    for e in sm[:2]:
+        chk.ob(rule, construct + "[broadcast]", "the operands of an element-wise operation have the same length", False,
+               derived="lengths %r and %r" % (e.dims[0], e.dims[1]), loc=e.loc, stmt=e.stmt, detail="the operation raises for every record")
     ui = [e for e in run.I.events if e.kind == "uninit-read"]
     for e in ui[:2]:
         chk.ob(rule, construct + "[initialised]", "a buffer from np.empty is completely written before it is read", False, derived=e.what,
